@@ -266,7 +266,7 @@ impl Prop for C18 {
         false
     }
     fn rule(&self) -> String {
-        "histories: all sequences of length <=3 (thorough <=4) over 18 operations (9 queries: literal-only, one fact, two facts, facts inside a function call, an error after a lookup, a cast of a fact, a single word carried by several constants, the full word set of one of those, a three-result query whose middle expression fails after a lookup; each with descriptions off/on; a history is judged only if each of its operations answers identically on two independent fresh databases), each history executed on one shared Db instance that also served all earlier histories of the worker; after every step the operation's observation (values, error text+range, descriptions) must equal its observation on a fresh Db, and describe on/off must give the same values. near-collision histories: sequences of length <=3 over up to 16 full word sets of shipped constants that share word prefixes of >=5 characters (mauritius/mauritania...), each answer compared with the independently decoded constant. lookup-free histories: all sequences of length <=3 over 20 unit / number / function queries that would collide in plausible caches (one unit word under several prefixes and powers, one function with different arguments, one mantissa with different exponents), each step compared with a hand-written exact expectation. multi-result queries: (A) (B), (B) (A), (A) (B) (A') over 5+5 expressions with disjoint phrase sets (values, failing after a lookup, failing without one): the phrases of every computed result must be reported, in order, whatever fails before or after it. expressions: all trees with <=3 operands over {2, 0.5, 4 fact phrases} x {+ - * /} with explicit grouping; value with describe = value without = reference evaluation with the described constants substituted; descriptions = the phrases as written, one per phrase occurrence, in the evaluation order inferred from the two-phrase expressions. Non-trivial = the history/expression contains at least one fact lookup; distinct = distinct histories/expressions".into()
+        "histories: all sequences of length <=3 (thorough <=4) over 18 operations (9 queries: literal-only, one fact, two facts, facts inside a function call, an error after a lookup, a cast of a fact, a single word carried by several constants, the full word set of one of those, a three-result query whose middle expression fails after a lookup; each with descriptions off/on; a history is judged only if each of its operations answers identically on two independent fresh databases), each history executed on one shared Db instance that also served all earlier histories of the worker; after every step the operation's observation (values, error text+range, descriptions) must equal its observation on a fresh Db, and describe on/off must give the same values. pairing: every distinct single word of the data set as a phrase (the described constant's value and unit must be the result). near-collision histories: sequences of length <=3 over up to 16 full word sets of shipped constants that share word prefixes of >=5 characters (mauritius/mauritania...), each answer compared with the independently decoded constant. lookup-free histories: all sequences of length <=3 over 20 unit / number / function queries that would collide in plausible caches (one unit word under several prefixes and powers, one function with different arguments, one mantissa with different exponents), each step compared with a hand-written exact expectation. multi-result queries: (A) (B), (B) (A), (A) (B) (A') over 5+5 expressions with disjoint phrase sets (values, failing after a lookup, failing without one): the phrases of every computed result must be reported, in order, whatever fails before or after it. expressions: all trees with <=3 operands over {2, 0.5, 4 fact phrases} x {+ - * /} with explicit grouping; value with describe = value without = reference evaluation with the described constants substituted; descriptions = the phrases as written, one per phrase occurrence, in the evaluation order inferred from the two-phrase expressions. Non-trivial = the history/expression contains at least one fact lookup; distinct = distinct histories/expressions".into()
     }
     fn assumptions(&self) -> Vec<String> {
         vec![
@@ -307,6 +307,14 @@ impl Prop for C18 {
                     sink(Case::new("uhistory", format!("{a},{b},{c}")));
                 }
             }
+        }
+        // every distinct single word of the data set as a phrase of its own: the constant that is
+        // described must be the one whose value is returned
+        let mut words: Vec<String> = crate::refdb::constants().iter().flat_map(|c| c.tokens.clone()).filter(|w| crate::props::c16::typeable_phrase(std::slice::from_ref(w))).collect();
+        words.sort();
+        words.dedup();
+        for w in words {
+            sink(Case::new("pairing", w));
         }
         // histories over nearly colliding fact phrases: all sequences of length <= 3 (quick: <= 2 plus
         // every triple that repeats its first element's partner)
@@ -394,6 +402,42 @@ impl Prop for C18 {
             }
             env.bulk_evals += (ops.len() as u64) * (NOPS as u64 + 2);
             return fw::pass(ops.iter().any(|o| o / 2 != 0), fw::hash_str(&state_before));
+        }
+        if case.fam == "pairing" {
+            let q = &case.key;
+            let (on, off) = match (obs::eval_described(env.db(), q, true), obs::eval_described(env.db(), q, false)) {
+                (Some(a), Some(b)) => (a, b),
+                _ => return Verdict::DontCare("not a phrase"),
+            };
+            let show = |rs: &Vec<Res>| rs.iter().map(|r| r.short()).collect::<Vec<_>>().join("; ");
+            if show(&on.results) != show(&off.results) {
+                return fw::fail("describe-changes-value", format!("{q}: with descriptions {} / without {}", show(&on.results), show(&off.results)));
+            }
+            if on.results.len() != 1 {
+                return Verdict::DontCare("not a single phrase");
+            }
+            return match &on.results[0] {
+                Res::Err { .. } => {
+                    if on.descriptions.is_empty() {
+                        fw::pass(false, 0)
+                    } else {
+                        fw::fail("pairing-description-of-nothing", format!("{q}: no value but {} descriptions", on.descriptions.len()))
+                    }
+                }
+                Res::Ok { value, unit, .. } => {
+                    if on.descriptions.len() != 1 || on.descriptions[0].0 != *q {
+                        return fw::fail("pairing-count", format!("{q}: one looked-up phrase, descriptions {:?}", on.descriptions.iter().map(|d| d.0.clone()).collect::<Vec<_>>()));
+                    }
+                    let c = &on.descriptions[0].1;
+                    if &obs::rat_of(&c.value) != value || &obs::unit_parts(&c.unit) != unit {
+                        return fw::fail(
+                            "pairing",
+                            format!("{q}: the value returned is {} but the constant described is {:?} ({}) whose value is {}", on.results[0].short(), c.tokens, c.description, obs::rat_of(&c.value)),
+                        );
+                    }
+                    fw::pass(true, fw::hash_str(&c.description))
+                }
+            };
         }
         if case.fam == "phistory" {
             let ops: Vec<usize> = case.key.split(',').map(|s| s.parse().unwrap()).collect();
